@@ -56,7 +56,7 @@ CHECKS = {
         text="Every combination of per-file information states and inventory defects of the compliant skeleton (complete), "
              "plus TLC-sampled projects of the Inventory and Precedence generators, is linted for real and judged by TLC "
              "for exit status, summary flag, and exact equality of every category (nothing else reported, non-covered "
-             "distractor files never shown). In addition Workflow.tla (the tool as a state machine over what the project declares: annotate / download / download --all / lint / spdx with their documented effect and exit status; Monotone, ReadersReadOnly, ComplianceReachable, DownloadAllExact model-checked from every initial state) is replayed: TLC-simulated command sequences run on a real project and the abstract state observed after every command must be the one the specification allows.",
+             "distractor files never shown). In addition Workflow.tla (the tool as a state machine over what the project declares: annotate / download / download --all / lint / spdx / convert-dep5 with their documented effect and exit status; Monotone, ReadersReadOnly, ComplianceReachable, DownloadAllExact model-checked from every initial state) is replayed: TLC-simulated command sequences run on a real project and the abstract state observed after every command must be the one the specification allows.",
         note="Read errors are injected through a sys.addaudithook shim (root ignores permissions); trusts TLC, the "
              "materialiser and the JSON projection.",
         ref="5/C01"),
@@ -132,7 +132,7 @@ CHECKS = {
         text="For every entry of the extension / file-name tables, every --style, --single-line / --multi-line where "
              "supported, .license variants, templates, all bundles (prefixes, year forms, several holders / licences / "
              "contributors) and pre-existing contents, and for invocations over several files, TLC checks that after a "
-             "run reporting success the linter reads exactly what the file declared before plus the request, per file. In addition Workflow.tla (the tool as a state machine over what the project declares: annotate / download / download --all / lint / spdx with their documented effect and exit status; Monotone, ReadersReadOnly, ComplianceReachable, DownloadAllExact model-checked from every initial state) is replayed: TLC-simulated command sequences run on a real project and the abstract state observed after every command must be the one the specification allows.",
+             "run reporting success the linter reads exactly what the file declared before plus the request, per file. In addition Workflow.tla (the tool as a state machine over what the project declares: annotate / download / download --all / lint / spdx / convert-dep5 with their documented effect and exit status; Monotone, ReadersReadOnly, ComplianceReachable, DownloadAllExact model-checked from every initial state) is replayed: TLC-simulated command sequences run on a real project and the abstract state observed after every command must be the one the specification allows.",
         note="The linter's view is taken from `reuse lint --json` and the tool's own reader (contributors); requests are concretised from small pools; files that the linter never lists (excluded names, files left empty) are outside the domain.",
         ref="5/C07"),
     "C10": dict(
@@ -194,7 +194,7 @@ CHECKS = {
              "from the root, a sub-directory, LICENSES/ and outside, with and without --root / Git, repeated invocations, "
              "--all and --output; TLC checks that no existing file changes, only the prescribed paths appear, LicenseRef- "
              "needs no network, a failed transfer leaves no file, content is the complete body, later identifiers are still "
-             "handled, the exit status tells failure, and lint reports no missing licence after a successful --all. In addition Workflow.tla (the tool as a state machine over what the project declares: annotate / download / download --all / lint / spdx with their documented effect and exit status; Monotone, ReadersReadOnly, ComplianceReachable, DownloadAllExact model-checked from every initial state) is replayed: TLC-simulated command sequences run on a real project and the abstract state observed after every command must be the one the specification allows.",
+             "handled, the exit status tells failure, and lint reports no missing licence after a successful --all. In addition Workflow.tla (the tool as a state machine over what the project declares: annotate / download / download --all / lint / spdx / convert-dep5 with their documented effect and exit status; Monotone, ReadersReadOnly, ComplianceReachable, DownloadAllExact model-checked from every initial state) is replayed: TLC-simulated command sequences run on a real project and the abstract state observed after every command must be the one the specification allows.",
         note="Network = urllib.request.urlopen stub inside the harness process; body-read failures are not scripted; an "
              "outside sentinel directory is part of every snapshot.",
         ref="5/C19"),
@@ -207,7 +207,7 @@ CHECKS = {
              "two matchers are compared as languages by TLC; whole projects (several paragraphs and patterns, multi-line "
              "copyright, comments, in-file information to aggregate with) are converted for real and TLC checks that every "
              "path keeps exactly its copyright lines and expressions apart from the source's name, that REUSE.toml is "
-             "written before dep5 is removed, that a failed write keeps dep5, and that the command refuses without dep5.",
+             "written before dep5 is removed, that a failed write keeps dep5, and that the command refuses without dep5. In addition Workflow.tla (the tool as a state machine over what the project declares, convert-dep5 interleaved with annotate / download / lint; ConversionKeepsAttribution, OnlyConvertMovesGlob model-checked) is replayed on a real project with the abstract state compared after every command.",
         note="Two open findings (KF-C17-1 '?', KF-C17-2 '*/') are matched by TLA+ signatures; the dep5 side of the language "
              "comparison is the Debian specification as transcribed in Dep5Tok.",
         ref="5/C17"),
